@@ -309,4 +309,8 @@ def handle (toks : List String) : String :=
     | _, _, _ => "bad-op"
   | _ => "bad-op"
 
+/-- a history of requests in one process: the functions of this property keep no state, so the
+    model answers a history request by request (this is also what the driver loop does) -/
+def run (reqs : List (List String)) : List String := reqs.map handle
+
 end QE.C13
